@@ -62,6 +62,12 @@ def resolve_names(node):
         if isinstance(node.ctx, ast.Store) and isinstance(node.namespace, ast.ClassDef):
             binding.disallow_rename()
 
+            # A name assigned in a class body is looked up in the class namespace and then in the
+            # global namespace, so a read that happens before the assignment sees the global name.
+            for global_binding in get_global_namespace(node).bindings:
+                if global_binding.name == node.id:
+                    global_binding.disallow_rename()
+
     elif isinstance(node, ast.ClassDef) and node.name in node.namespace.nonlocal_names:
         binding = get_binding_disallow_class_namespace_rename(node.name, node.namespace)
         binding.add_reference(node)
